@@ -160,6 +160,9 @@ class QOpts:
     group: bool = False
     collections: bool = True
     max_depth: int = 4
+    #: schema-specific extra sources: {type name: [expression text]}, {kind: [expression text]}
+    extra_obj: Optional[dict] = None
+    extra_scalar: Optional[dict] = None
 
 
 class Gen:
@@ -253,6 +256,8 @@ class Gen:
                 choices.append('param')
             if self.o.globals_ and kind in ('int', 'str'):
                 choices += ['global', 'global']
+            if self.o.extra_scalar and self.o.extra_scalar.get(kind):
+                choices += ['extra', 'extra']
             choices.append('subq')
         c = self.pick(choices)
         if c == 'lit':
@@ -277,6 +282,8 @@ class Gen:
             return f'{v}.{p.name}.{p2.name}'
         if c == 'objprop':
             cands = [t for t in self.info.types if self.usable_ptrs(t, links=False, kind=kind)]
+            if not cands:
+                return {'int': '1', 'str': "'a'", 'bool': 'true'}[kind]
             t = self.pick(cands)
             p = self.pick(self.usable_ptrs(t, links=False, kind=kind))
             src = self.objset(t, env, prefix, d - 1)
@@ -358,6 +365,10 @@ class Gen:
             self.params[name] = text
             self.f('param')
             return f'{text}${name}'
+        if c == 'extra':
+            x = self.pick(self.o.extra_scalar[kind])
+            self.f('extra:' + x.strip('()').split('(')[0].split()[-1])
+            return x
         if c == 'global':
             g = 'page' if kind == 'int' else 'cur_name'
             self.uses_globals.add(g)
@@ -440,6 +451,8 @@ class Gen:
                 choices.append('global')
             if self.o.aliases and t == 'User':
                 choices.append('alias')
+            if self.o.extra_obj and self.o.extra_obj.get(t):
+                choices += ['extra', 'extra']
             if self.o.dml and not info.types[t]['abstract']:
                 choices += ['dml', 'dml']
             if self.o.dml and self.o.funcs and t in ('Note', 'Card'):
@@ -532,6 +545,10 @@ class Gen:
             self.uses_globals.add('cur_user')
             self.f('global-computed')
             return 'global cur_user'
+        if c == 'extra':
+            x = self.pick(self.o.extra_obj[t])
+            self.f('extra:' + x.strip('()').split('(')[0].split()[0])
+            return x
         if c == 'alias':
             self.f('schema-alias')
             return 'Adults'
